@@ -102,6 +102,32 @@ pub fn specimens(rec: &mut Rec, lib: &dyn Lib, g: Grp, seed: u64, payload_len: u
         v.push(sp(Ty::ProofCommitmentSecret, l, refimpl::scalar_to_be(&s)));
         v.push(sp(Ty::ProofCommitmentChallenge, l, refimpl::scalar_to_be(&s)));
     }
+    // limb-pattern secret keys (a few per run) and points with extreme leading coordinate words in every
+    // point-carrying type (any valid subgroup point is a valid value of these types)
+    for _ in 0..4 {
+        let i = x.below(crate::env::LIMB_KEYS);
+        v.push(sp(Ty::SecretKey, &format!("limb-pattern-{}", i), crate::env::limb_key(i)));
+    }
+    for k in crate::env::edge_scalars(pl) {
+        let e = crate::env::edge_point(pl, k);
+        v.push(sp(Ty::SecretKey, &format!("edge-scalar-{}", k), refimpl::scalar_to_be(&refimpl::scalar_from_u64(k))));
+        for ty in [Ty::PublicKey, Ty::MultiPublicKey, Ty::SignCryptDecryptionKey, Ty::ElGamalDecryptionKey] {
+            v.push(sp(ty, &format!("edge-point-{}", k), e.clone()));
+        }
+        let mut share = vec![1 + (k % 255) as u8];
+        share.extend_from_slice(&e);
+        v.push(sp(Ty::PublicKeyShare, &format!("edge-point-{}", k), share));
+        v.push(sp(Ty::ElGamalCiphertext, &format!("edge-points-{}", k), refimpl::layout::ElGamalFields { c1: e.clone(), c2: e.clone(), proof: None }.build()));
+    }
+    for k in crate::env::edge_scalars(sl) {
+        let e = crate::env::edge_point(sl, k);
+        for s in 0u8..3 {
+            for ty in [Ty::Signature, Ty::AggregateSignature, Ty::MultiSignature, Ty::ProofCommitment] {
+                v.push(sp(ty, &format!("{}-edge-point-{}", scheme_name(s), k), refimpl::layout::tagged(s, &e)));
+            }
+        }
+        v.push(sp(Ty::ProofOfPossession, &format!("edge-point-{}", k), e.clone()));
+    }
     // shares: identifiers 1..=255 come from a (2,255) split; a few are persisted per run
     let big = x.chance(1, 4);
     let (t, n) = if big { (2u64, 255u64) } else { (2, 3) };
